@@ -476,6 +476,8 @@ def gen_combine_terms_in_place(
     """
 
     total_terms = random.randint(min_terms, max_terms)
+    # Every noise term needs its own variable, and the focus variable is excluded
+    total_terms = min(total_terms, len(variables) + 1)
     var = rand_var()
     power_chance = 80 if powers is True else 0
     power = maybe_power(power_chance)
